@@ -330,6 +330,35 @@ fn sut_transcript(case: &MCase) -> Transcript {
 	Transcript { lines, panicked }
 }
 
+/// Window programs are cut just before the first operation on which the default build panics (documented panics:
+/// push / newest / oldest on an empty window, Index out of range), so that the remaining prefix - e.g. `get(0)` on an
+/// empty window - still takes part in the comparison instead of the whole program being filtered out
+pub fn trim_to_non_panicking(p: &mut Program) {
+	if let Program::Win(c) = p {
+		for _ in 0..64 {
+			let t = win_dispatch(c);
+			if !t.panicked || t.lines.is_empty() {
+				break;
+			}
+			let keep = t.lines.len() - 1;
+			if keep >= c.ops.len() {
+				break;
+			}
+			// drop the panicking operation, keep everything after it as well
+			c.ops.remove(keep);
+		}
+	}
+}
+
+fn win_dispatch(c: &c01::Case) -> Transcript {
+	match c.elem.as_str() {
+		"u32" => win_transcript::<u32>(c),
+		"String" => win_transcript::<String>(c),
+		"ValueType" => win_transcript::<ValueType>(c),
+		_ => win_transcript::<(ValueType, ValueType)>(c),
+	}
+}
+
 /// programs drawn by the default build's generator; every parameter fits u8
 pub fn gen_programs(seed: u64, count: u64, small: bool) -> Vec<Program> {
 	let root = Rng::new(crate::rng::mix(seed, crate::rng::fnv("programs")));
@@ -354,7 +383,13 @@ pub fn gen_programs(seed: u64, count: u64, small: bool) -> Vec<Program> {
 					*idx = (*idx).min(*n - 1);
 				}
 			}
-			v.push(Program::Win(c));
+			if r.chance(0.12) {
+				// empty windows: only the observers that do not panic by contract survive the trimming below
+				c.ctor = [c01::Ctor::Empty, c01::Ctor::Default, c01::Ctor::New { n: 0 }][r.usize_below(3)].clone();
+			}
+			let mut p = Program::Win(c);
+			trim_to_non_panicking(&mut p);
+			v.push(p);
 			continue;
 		}
 		// bias towards Window / SMM / median users for the in-bounds oracle
